@@ -9,7 +9,9 @@ import (
 	"path/filepath"
 	"strconv"
 	"strings"
+	"sync"
 	"testing"
+	"time"
 
 	"pgregory.net/rapid"
 
@@ -121,15 +123,58 @@ type failure struct {
 
 var lastFail *failure
 
+// ---- watchdog: a single case that runs for longer than watchdogLimit aborts
+// the process with a marker the driver understands (exit code 3).
+var (
+	wdMu       sync.Mutex
+	wdStart    time.Time
+	wdCase     []byte
+	wdOnce     sync.Once
+	wdDisabled bool
+)
+
+const watchdogLimit = 180 * time.Second
+
+func watchdogArm(b []byte) {
+	wdOnce.Do(func() {
+		go func() {
+			for {
+				time.Sleep(2 * time.Second)
+				wdMu.Lock()
+				st, c := wdStart, wdCase
+				wdMu.Unlock()
+				if !wdDisabled && !st.IsZero() && time.Since(st) > watchdogLimit {
+					fmt.Printf("\nWATCHDOG property=%s one case has been running for %s\n", PropID, time.Since(st).Round(time.Second))
+					if workDir != "" {
+						_ = os.WriteFile(filepath.Join(workDir, fmt.Sprintf("%s.%d.current", PropID, Shard)), c, 0o644)
+					}
+					os.Exit(3)
+				}
+			}
+		}()
+	})
+	wdMu.Lock()
+	wdStart, wdCase = time.Now(), b
+	wdMu.Unlock()
+}
+
+func watchdogDisarm() {
+	wdMu.Lock()
+	wdStart = time.Time{}
+	wdMu.Unlock()
+}
+
 func crumb(id, name string, key []byte) {
 	if workDir == "" {
 		return
 	}
-	b, _ := json.Marshal(replayFile{Property: id, Check: name, Error: "process died while executing this case", Case: key})
+	b, _ := json.Marshal(replayFile{Property: id, Check: name, Error: "process died (or hung) while executing this case", Case: key})
 	_ = os.WriteFile(filepath.Join(workDir, fmt.Sprintf("%s.%d.current", id, Shard)), b, 0o644)
+	watchdogArm(b)
 }
 
 func clearCrumb(id string) {
+	watchdogDisarm()
 	if workDir != "" {
 		_ = os.Remove(filepath.Join(workDir, fmt.Sprintf("%s.%d.current", id, Shard)))
 	}
@@ -171,6 +216,7 @@ func (p *Prop[C]) one(c *C, label string) string {
 	}
 	crumb(p.ID, p.Name, key)
 	o := p.Check(c)
+	watchdogDisarm()
 	if o.Skip != "" {
 		R.Excluded(o.Skip)
 		return ""
